@@ -321,6 +321,62 @@ fn check_table(c: &TableCase, st: &mut Stats) -> Outcome {
             }
         }
     }
+    // "if nothing applies the conflict is reported (LR) or kept (GLR)": the user-facing entry
+    // point must fail with the conflicts error exactly when a cell of the resolved table still
+    // holds more than one action (LR), and must generate a parser otherwise / always (GLR).
+    {
+        let remaining = crate::compile::conflict_cells(&res);
+        let dir = super::c16::thread_dir("c05");
+        let gpath = dir.join("g.rustemo");
+        for f in ["g.rs", "g_actions.rs"] {
+            let _ = std::fs::remove_file(dir.join(f));
+        }
+        if std::fs::write(&gpath, &text).is_ok() {
+            let settings = cfg.settings().force(true);
+            st.sub();
+            match guarded(|| settings.process_grammar(&gpath)) {
+                Err(p) => {
+                    return Outcome::fail(
+                        format!("compiler-abort|process_grammar|{}", panic_sig(&p)),
+                        format!("process_grammar aborted at {}:{}: {}\ngrammar:\n{text}\nsettings: {cfg:?}", p.file, p.line, p.message),
+                    )
+                }
+                Ok(Ok(())) => {
+                    if !c.glr && remaining > 0 {
+                        return Outcome::fail(
+                            "report|lr-conflict-not-reported",
+                            format!("grammar:\n{text}\nsettings: {cfg:?}\n{remaining} cell(s) of the resolved table keep more than one action, yet process_grammar returned Ok"),
+                        );
+                    }
+                    if !dir.join("g.rs").exists() {
+                        return Outcome::fail("report|ok-without-parser", format!("grammar:\n{text}\nsettings: {cfg:?}"));
+                    }
+                    st.class(if c.glr { "entry-point:glr-parser-generated" } else { "entry-point:lr-deterministic" });
+                }
+                Ok(Err(e)) => {
+                    let m = format!("{e}");
+                    if m.contains("not deterministic") {
+                        if c.glr {
+                            return Outcome::fail(
+                                "report|glr-conflict-reported-as-error",
+                                format!("grammar:\n{text}\nsettings: {cfg:?}\nerror: {m}"),
+                            );
+                        }
+                        if remaining == 0 {
+                            return Outcome::fail(
+                                "report|lr-conflict-reported-for-resolved-table",
+                                format!("grammar:\n{text}\nsettings: {cfg:?}\nevery cell of the resolved table holds at most one action, yet: {m}"),
+                            );
+                        }
+                        st.class("entry-point:lr-conflicts-reported");
+                    } else {
+                        // other errors of the generator are outside this property
+                        st.class("entry-point:other-error");
+                    }
+                }
+            }
+        }
+    }
     if nontrivial {
         st.nontrivial(&format!("{text}\n{cfg:?}"), || {
             json!({"grammar": text, "algo": if c.glr {"GLR"} else {"LR"}, "prefer_shifts": c.ps,
